@@ -498,7 +498,9 @@ def worker(job):
         label, areqs = corp[idx]
         limit = job['limit3'] if len(areqs) > 2 else job['limit']
         ex = Explorer(app, 'base', areqs, limit=limit, rnd=rnd,
-                      sample=len(areqs) > 2)
+                      # races of three: sampled under a small budget, enumerated (fewest preemptions
+                      # first, up to the limit) in the thorough tier
+                      sample=len(areqs) > 2 and job.get('tier') != 'thorough')
         n0 = len(lines)
         for o in ex.explore():
             lid = len(lines) + 1
